@@ -8,7 +8,7 @@ import re
 from ..core import Checker, Rule, attr_calls, callee_is, calls_in, kwarg, resolved_calls, short
 from ..interp import Pins, find_nodes, unparse
 from ..model import AnalysisError
-from .util import effect_table, enclosing_loop, enclosing_stmt, enum_members, every_iteration_reaches, fmt, inline_displays, is_const, parent, returns_of, self_attr_for_param, single_def
+from .util import effect_table, enclosing_loop, enclosing_stmt, enum_members, every_iteration_reaches, fmt, inline_displays, is_const, parent, returns_of, same, self_attr_for_param, single_def
 
 P = ("C13", "C01", "C06")
 PG = ("C13", "C02", "C01")
@@ -207,7 +207,8 @@ def r_get_var(ck: Checker) -> None:
     ck.need(loop is not None and unparse(loop.iter) == "self.objectives.items()", "loop over all objectives of the program")
     terms_, objective = [unparse(e) for e in loop.target.elts]  # type: ignore[union-attr]
     comp = unparse(site.args[0]).replace(" ", "")
-    ck.add("only the statement itself is exempt", comp == f"[xforxin{objective}ifx!={m}]", func, site, f"collected: `{comp}`",
+    comp_full = unparse(site.args[0])
+    ck.add("only the statement itself is exempt", same(comp_full, f"[x for x in {objective} if x != {m}]"), func, site, f"collected: `{comp}`",
            "another objective element with the syntactically identical tuple (same key) must still block the rewrite: '#minimize{L,D:shift(D,L); L,D:penalty(D,L)}'")
     want = f"potentially_unifying_sequence({terms_}, [{m}.weight, {m}.priority, *{m}.terms])"
     ck.guard("compared with (weight, priority, *terms) of this statement", func, site, want, "")
